@@ -67,6 +67,8 @@ def make_jobs(check, rnd):
         for prof in ("closing", "blackout", "mixed", "ptoclose"):
             for i in range(n):
                 cfg = {"cc": cc, "version": ver, "idle": rnd.choice([60.0, 60.0, 5.0, 0.5])}
+                if rnd.random() < 0.3:
+                    cfg[rnd.choice(["c_idle", "s_idle"])] = rnd.choice([0.5, 2.0, 5.0])
                 sc = script.random_script(rnd, rnd.choice([10, 30, 60]), script.PROFILES[prof])
                 hs_adv = rnd.random() < 0.35
                 if prof == "closing" and rnd.random() < 0.6:
@@ -94,6 +96,19 @@ def make_jobs(check, rnd):
                      "profile": "corpus-first-datagram-cut-blackout"})
         jobs.append({"cfg": {}, "script": [["truncate", 0, n], ["deliver", 0], ["write", "c", 0, 100, True]], "seed": 5, "hs_adv": True,
                      "profile": "corpus-first-datagram-cut"})
+    # the peer's close is in the very first packet an endpoint processes: a server that refuses at once (no common ALPN),
+    # a client whose first flight was lost and which then closes
+    jobs.append({"cfg": {"s_alpn": ["other"]}, "script": [["deliver", 0], ["deliver", 0], ["deliver", 0], ["timer", "c"], ["timer", "c"]],
+                 "seed": 8, "hs_adv": True, "profile": "corpus-peer-close-first-packet-client"})
+    jobs.append({"cfg": {}, "script": [["drop", 0], ["close", "c", 0], ["deliver", 0], ["timer", "s"], ["timer", "s"], ["timer", "s"]],
+                 "seed": 8, "hs_adv": True, "profile": "corpus-peer-close-first-packet-server"})
+    # the endpoints advertise different idle timeouts; the packet that brings the peer's transport parameters is the last one
+    for small in ({"c_idle": 5.0, "idle": 60.0}, {"s_idle": 5.0, "idle": 60.0}):
+        for smallcert in (False, True):
+            jobs.append({"cfg": dict(small, smallcert=smallcert), "script": [["deliver", 0], ["deliver", 0], ["blackout"]],
+                         "seed": 9, "hs_adv": True, "profile": "corpus-asymmetric-idle-blackout"})
+            jobs.append({"cfg": dict(small, smallcert=smallcert), "script": [["deliver", 0], ["blackout"]],
+                         "seed": 9, "hs_adv": True, "profile": "corpus-asymmetric-idle-blackout"})
     for ep in "cs":
         jobs.append({"cfg": {}, "script": [["write", ep, 0 if ep == "c" else 3, 3000, False], ["drop", 0], ["drop", 0], ["drop", 0],
                                            ["timer", ep], ["drop", 0], ["timer", ep], ["drop", 0], ["timer", ep], ["drop", 0],
